@@ -48,6 +48,107 @@ class ConvertTextContent(Contract):
         return {"off_is_identity_on_is_latex_pass": to_z3(norm_str(out.value)) == If(en, LATEX(t), t)}
 
 
+class ConvertSingleText(Contract):
+    """TextConversionService._convert_single_text(text): '' stays ''; otherwise the converter's result for exactly this text (C11: the LaTeX
+    pass sees the whole text, once).  Code-derived: when the converter raises, a warning is printed and the text is returned unconverted."""
+    target = "services/text_conversion_service.py::TextConversionService._convert_single_text"
+    serves = ["C11", "C10"]
+    models = [StrModel()]
+    variants = ["converter_returns", "converter_raises"]
+
+    @property
+    def summaries(self):
+        def latex(I, st, args, kwargs, node):
+            site = getattr(node, "lineno", None)
+            I.oblige(st, f"C11.the_latex_pass_gets_the_whole_text@L{site}", to_z3(norm_str(args[1])) == to_z3(self._v["text"]), "post", site)
+            st.ghost["passes"] = st.ghost.get("passes", 0) + 1
+            if self._variant == "converter_raises":
+                from pyvc.values import ClassVal
+                from pyvc.state import SymRaise
+                raise SymRaise(ClassVal("RuntimeError", RuntimeError), st, "converter failed", site)
+            return LATEX(to_z3(norm_str(args[1])))
+        return {"TextConverter.convert_latex_to_unicode": latex}
+
+    handlers = {"print": lambda I, st, args, kwargs, node: None}
+
+    def setup(self, c):
+        cls = c.cls("rtflite.services.text_conversion_service", "TextConversionService")
+        conv = c.alloc(RecObj("TextConverter", {}, pyclass=c.cls("rtflite.text_conversion.converter", "TextConverter"), fresh=False))
+        c.bind("self", c.alloc(RecObj("TextConversionService", {"converter": conv}, pyclass=cls, fresh=False)))
+        c.param("text", T.Str)
+        c.ghost("passes", 0)
+        self._v, self._variant = c.v, c.variant
+
+    def ensures(self, c, out):
+        t = c.v["text"]
+        n = out.state.ghost.get("passes", 0)
+        empty = t == lit("")
+        if c.variant == "converter_raises":
+            return {"a_failing_converter_leaves_the_text_unconverted": to_z3(norm_str(out.value)) == t}
+        return {"C11.empty_stays_empty_otherwise_the_latex_pass_of_this_text": to_z3(norm_str(out.value)) == If(empty, t, LATEX(t)),
+                "C11.at_most_one_latex_pass": z3.BoolVal(n <= 1)}
+
+
+RESUB = z3.Function("every_documented_token_replaced_by_its_lookup", StrSort, StrSort)
+CMDLOOK = z3.Function("convert_single_command", StrSort, StrSort)
+
+
+class ConvertLatexToUnicode(Contract):
+    """TextConverter.convert_latex_to_unicode(text): '' stays ''; otherwise pattern.sub(f, text) on the converter's own compiled pattern (its
+    source is compared with the documented token language by table unit conversion_tables) over the whole text, with a replacement function
+    that maps a match to _convert_single_command(match.group(0)) - the whole token, nothing else (C11: exactly the documented tokens, each
+    looked up as a whole; everything outside a match is left as it is by re.sub)."""
+    target = "text_conversion/converter.py::TextConverter.convert_latex_to_unicode"
+    serves = ["C11"]
+    models = [StrModel()]
+
+    @property
+    def summaries(self):
+        def single(I, st, args, kwargs, node):
+            return CMDLOOK(to_z3(norm_str(args[1])))
+        return {"TextConverter._convert_single_command": single}
+
+    @property
+    def handlers(self):
+        from pyvc.calls import call_value
+        from pyvc.values import FuncVal
+
+        def h_sub(I, st, args, kwargs, node):
+            site = getattr(node, "lineno", None)
+            I.ctx.assume_lib("re: pattern.sub(f, s) replaces every non-overlapping leftmost match m in s by f(m) and keeps the rest of s; m.group(0) is the matched text")
+            I.oblige(st, f"C11.the_whole_text_is_scanned_once_without_a_count_limit@L{site}",
+                     And(z3.BoolVal(len(args) == 2 and not kwargs and st.ghost.get("subs", 0) == 0), to_z3(norm_str(args[1])) == to_z3(self._v["text"])), "post", site)
+            st.ghost["subs"] = st.ghost.get("subs", 0) + 1
+            fn = args[0]
+            if not isinstance(fn, FuncVal):
+                I.oblige(st, f"C11.replacement_is_computed_from_the_match@L{site}", z3.BoolVal(False), "post", site)
+                return RESUB(to_z3(norm_str(args[1])))
+            M = z3.Const("matched_token", StrSort)
+            m = st.alloc(RecObj("Match", {"_text": M}, fresh=True))
+            r = call_value(I, st, fn, [m], {}, node)
+            I.oblige(st, f"C11.a_match_is_replaced_by_the_lookup_of_the_whole_token@L{site}", to_z3(norm_str(r)) == CMDLOOK(M), "post", site)
+            return RESUB(to_z3(norm_str(args[1])))
+
+        def h_group(I, st, args, kwargs, node):
+            site = getattr(node, "lineno", None)
+            I.oblige(st, f"C11.the_whole_match_is_taken@L{site}", z3.BoolVal(len(args) == 0 or (len(args) == 1 and args[0] == 0)), "post", site)
+            m = st.obj(I.lookup(st, "match"))
+            return m.fields["_text"]
+        return {"self._latex_pattern.sub": h_sub, "match.group": h_group}
+
+    def setup(self, c):
+        cls = c.cls("rtflite.text_conversion.converter", "TextConverter")
+        pat = c.alloc(RecObj("Pattern", {}, fresh=False))
+        c.bind("self", c.alloc(RecObj("TextConverter", {"_latex_pattern": pat}, pyclass=cls, fresh=False)))
+        c.param("text", T.Str)
+        c.ghost("subs", 0)
+        self._v = c.v
+
+    def ensures(self, c, out):
+        t = c.v["text"]
+        return {"C11.empty_stays_empty_otherwise_every_token_is_replaced_by_its_lookup": to_z3(norm_str(out.value)) == If(t == lit(""), t, RESUB(t))}
+
+
 class ConvertSingleCommand(Contract):
     """TextConverter._convert_single_command / _handle_braced_command: the whole token is looked up; identity on a miss."""
     target = "text_conversion/converter.py::TextConverter._convert_single_command"
@@ -178,6 +279,6 @@ def bounded_reference(index, tier, seed):
     return {"bound": f"{len(cmds)} commands x {len(templates)} templates (exhaustive over the template set in the thorough tier)", "cases": cases, "failures": fails}
 
 
-UNITS = [ConvertTextContent(), ConvertSingleCommand()]
+UNITS = [ConvertTextContent(), ConvertSingleText(), ConvertLatexToUnicode(), ConvertSingleCommand()]
 TABLES = [TableUnit("conversion_tables", tables)]
 BOUNDED = [BoundedUnit("reference_converter", bounded_reference)]
